@@ -231,6 +231,9 @@ def widths(w, opt):
         segs, info = loopcut.cut(M, 'Cell.to_boc', split_after=['cells_num'])
     except loopcut.LoopNotFound as e:
         from vf.sym import Unsupported
+        from vf.engine import Skip
+        if not w.symbolic:
+            raise Skip()        # natively this fragment-based obligation has nothing to run: no verdict
         raise Unsupported(f'loop cut: {e}')
     args = dict(self=root, flags=0, **o)
     r0 = segs[0][1](args)
